@@ -247,6 +247,238 @@ func fnRoundTrip() *run.Fn {
 	}}
 }
 
+// ---- Params: constructor + setter sequences on the quadkey-side objects, read back through every getter.
+// args [slices; steps]; step = [target 0/1; kind; ...]; observed [snapshots after every step (both objects); the caller's slices at the end]
+type paramObj struct {
+	v *object.FromExtendedSpatialIDToQuadkeyAndVerticalID
+	a *object.FromExtendedSpatialIDToQuadkeyAndAltitudekey
+	q *object.QuadkeyAndVerticalID
+}
+
+func pairsOrdered(ps [][2]int64) w.Val {
+	l := make(w.List, len(ps))
+	for i, p := range ps {
+		l[i] = w.L(w.I(p[0]), w.I(p[1]))
+	}
+	return l
+}
+func (o *paramObj) snap() w.Val {
+	switch {
+	case o.v != nil:
+		return w.L(w.L(w.I(o.v.QuadkeyZoom()), w.I(o.v.VerticalZoom())), w.L(w.F(o.v.MaxHeight()), w.F(o.v.MinHeight())), pairsOrdered(o.v.InnerIDList()))
+	case o.a != nil:
+		return w.L(w.L(w.I(o.a.QuadkeyZoom()), w.I(o.a.AltitudekeyZoom()), w.I(o.a.ZBaseExponent()), w.I(o.a.ZBaseOffset())), w.L(), pairsOrdered(o.a.InnerIDList()))
+	case o.q != nil:
+		return w.L(w.L(w.I(o.q.QuadkeyZoom()), w.I(o.q.Quadkey()), w.I(o.q.VZoom()), w.I(o.q.VIndex())), w.L(w.F(o.q.MaxHeight()), w.F(o.q.MinHeight())), w.L())
+	}
+	return w.L(w.L(), w.L(), w.L())
+}
+// shape and applicability of a step list (the runner's shrinker can drop a constructor or mangle a step): the model refuses the same lists
+func paramsValid(a []w.Val) bool {
+	isInt := func(v w.Val) bool { i, ok := v.(w.Int); return ok && i.V.IsInt64() }
+	isFlt := func(v w.Val) bool { _, ok := v.(w.Flt); return ok }
+	isStr := func(v w.Val) bool { _, ok := v.(w.Str); return ok }
+	sl, ok := a[0].(w.List)
+	if !ok {
+		return false
+	}
+	for _, sv := range sl {
+		l, ok := sv.(w.List)
+		if !ok {
+			return false
+		}
+		for _, pv := range l {
+			f, ok := pv.(w.List)
+			if !ok || len(f) != 2 || !isInt(f[0]) || !isInt(f[1]) {
+				return false
+			}
+		}
+	}
+	steps, ok := a[1].(w.List)
+	if !ok || len(steps) > 64 {
+		return false
+	}
+	kinds := [2]int{-1, -1}
+	zset := [][]string{{"SetQuadkeyZoom", "SetVerticalZoom"}, {"SetQuadkeyZoom", "SetAltitudekeyZoom", "SetZBaseExponent", "SetZBaseOffset"}, {"SetQuadkeyZoom", "SetQuadkey", "SetVZoom", "SetVIndex"}}
+	for _, sv := range steps {
+		f, ok := sv.(w.List)
+		if !ok || len(f) < 2 || !isInt(f[0]) || !isStr(f[1]) {
+			return false
+		}
+		t := 0
+		if w.AsInt(f[0]) != 0 {
+			t = 1
+		}
+		ints := func(from, to int) bool {
+			for i := from; i < to; i++ {
+				if !isInt(f[i]) {
+					return false
+				}
+			}
+			return true
+		}
+		switch w.AsStr(f[1]) {
+		case "NewV":
+			if len(f) != 7 || !ints(2, 5) || !isFlt(f[5]) || !isFlt(f[6]) || w.AsInt(f[3]) < -1 {
+				return false
+			}
+			kinds[t] = 0
+		case "NewA":
+			if len(f) != 7 || !ints(2, 7) || w.AsInt(f[3]) < -1 {
+				return false
+			}
+			kinds[t] = 1
+		case "NewQ":
+			if len(f) != 8 || !ints(2, 6) || !isFlt(f[6]) || !isFlt(f[7]) {
+				return false
+			}
+			kinds[t] = 2
+		case "SetZ":
+			if len(f) != 4 || !isStr(f[2]) || !isInt(f[3]) || kinds[t] < 0 {
+				return false
+			}
+			found := false
+			for _, n := range zset[kinds[t]] {
+				found = found || n == w.AsStr(f[2])
+			}
+			if !found {
+				return false
+			}
+		case "SetF":
+			if len(f) != 4 || !isStr(f[2]) || !isFlt(f[3]) || kinds[t] < 0 || kinds[t] == 1 || (w.AsStr(f[2]) != "SetMaxHeight" && w.AsStr(f[2]) != "SetMinHeight") {
+				return false
+			}
+		case "SetInner":
+			if len(f) != 3 || !isInt(f[2]) || w.AsInt(f[2]) < -1 || kinds[t] < 0 || kinds[t] == 2 {
+				return false
+			}
+		case "CallerWrite":
+			if len(f) != 6 || !ints(2, 6) || w.AsInt(f[2]) < 0 || w.AsInt(f[3]) < 0 {
+				return false
+			}
+		case "GetterWrite":
+			if len(f) != 5 || !ints(2, 5) || w.AsInt(f[2]) < 0 || kinds[t] < 0 {
+				return false
+			}
+		default:
+			return false
+		}
+	}
+	return true
+}
+
+func fnParams() *run.Fn {
+	return &run.Fn{Name: "Params", Invoke: func(a []w.Val) w.Val {
+		if len(a) != 2 || !paramsValid(a) {
+			return w.S("refused: not a well-formed step list")
+		}
+		var slices [][][2]int64
+		for _, sv := range w.AsList(a[0]) {
+			sl := [][2]int64{}
+			for _, pv := range w.AsList(sv) {
+				f := w.AsList(pv)
+				sl = append(sl, [2]int64{w.AsInt(f[0]), w.AsInt(f[1])})
+			}
+			slices = append(slices, sl)
+		}
+		ref := func(v w.Val) [][2]int64 {
+			i := w.AsInt(v)
+			if i < 0 || int(i) >= len(slices) {
+				return nil
+			}
+			return slices[i]
+		}
+		objs := [2]*paramObj{{}, {}}
+		snaps := w.List{}
+		for _, sv := range w.AsList(a[1]) {
+			f := w.AsList(sv)
+			o := objs[0]
+			if w.AsInt(f[0]) != 0 {
+				o = objs[1]
+			}
+			switch w.AsStr(f[1]) {
+			case "NewV":
+				*o = paramObj{v: object.NewFromExtendedSpatialIDToQuadkeyAndVerticalID(w.AsInt(f[2]), ref(f[3]), w.AsInt(f[4]), w.AsFlt(f[5]), w.AsFlt(f[6]))}
+			case "NewA":
+				*o = paramObj{a: object.NewFromExtendedSpatialIDToQuadkeyAndAltitudekey(w.AsInt(f[2]), ref(f[3]), w.AsInt(f[4]), w.AsInt(f[5]), w.AsInt(f[6]))}
+			case "NewQ":
+				*o = paramObj{q: object.NewQuadkeyAndVerticalID(w.AsInt(f[2]), w.AsInt(f[3]), w.AsInt(f[4]), w.AsInt(f[5]), w.AsFlt(f[6]), w.AsFlt(f[7]))}
+			case "SetZ":
+				z := w.AsInt(f[3])
+				switch name := w.AsStr(f[2]); {
+				case o.v != nil && name == "SetQuadkeyZoom":
+					o.v.SetQuadkeyZoom(z)
+				case o.v != nil && name == "SetVerticalZoom":
+					o.v.SetVerticalZoom(z)
+				case o.a != nil && name == "SetQuadkeyZoom":
+					o.a.SetQuadkeyZoom(z)
+				case o.a != nil && name == "SetAltitudekeyZoom":
+					o.a.SetAltitudekeyZoom(z)
+				case o.a != nil && name == "SetZBaseExponent":
+					o.a.SetZBaseExponent(z)
+				case o.a != nil && name == "SetZBaseOffset":
+					o.a.SetZBaseOffset(z)
+				case o.q != nil && name == "SetQuadkeyZoom":
+					o.q.SetQuadkeyZoom(z)
+				case o.q != nil && name == "SetQuadkey":
+					o.q.SetQuadkey(z)
+				case o.q != nil && name == "SetVZoom":
+					o.q.SetVZoom(z)
+				case o.q != nil && name == "SetVIndex":
+					o.q.SetVIndex(z)
+				default:
+					panic("harness: Params: setter " + name + " does not exist for this object")
+				}
+			case "SetF":
+				x := w.AsFlt(f[3])
+				switch name := w.AsStr(f[2]); {
+				case o.v != nil && name == "SetMaxHeight":
+					o.v.SetMaxHeight(x)
+				case o.v != nil && name == "SetMinHeight":
+					o.v.SetMinHeight(x)
+				case o.q != nil && name == "SetMaxHeight":
+					o.q.SetMaxHeight(x)
+				case o.q != nil && name == "SetMinHeight":
+					o.q.SetMinHeight(x)
+				default:
+					panic("harness: Params: setter " + name + " does not exist for this object")
+				}
+			case "SetInner":
+				switch {
+				case o.v != nil:
+					o.v.SetInnerIDList(ref(f[2]))
+				case o.a != nil:
+					o.a.SetInnerIDList(ref(f[2]))
+				default:
+					panic("harness: Params: SetInnerIDList does not exist for this object")
+				}
+			case "CallerWrite": // the caller writes into its own slice after handing it over
+				sid, idx := w.AsInt(f[2]), w.AsInt(f[3])
+				if int(sid) < len(slices) && int(idx) < len(slices[sid]) {
+					slices[sid][idx] = [2]int64{w.AsInt(f[4]), w.AsInt(f[5])}
+				}
+			case "GetterWrite": // a write through the slice the getter returned
+				var l [][2]int64
+				switch {
+				case o.v != nil:
+					l = o.v.InnerIDList()
+				case o.a != nil:
+					l = o.a.InnerIDList()
+				}
+				if idx := w.AsInt(f[2]); int(idx) < len(l) {
+					l[idx] = [2]int64{w.AsInt(f[3]), w.AsInt(f[4])}
+				}
+			}
+			snaps = append(snaps, w.L(objs[0].snap(), objs[1].snap()))
+		}
+		fin := w.List{}
+		for _, sl := range slices {
+			fin = append(fin, pairsOrdered(sl))
+		}
+		return w.L(snaps, fin)
+	}}
+}
+
 // ---------------------------------------------------------------------------------------------- generators
 
 func min64(a, b int64) int64 {
@@ -431,7 +663,24 @@ func genSpecsN(g *Gen, h0, v0 int64, sameZoom, sid bool, n int) []idspec {
 	var l []idspec
 	for len(l) < n {
 		var s idspec
-		k := g.Intn(11)
+		k := g.Intn(14)
+		if k >= 11 && len(l) > 0 { // the same tile with a vertical index close to a previous one: ranges arrive out of order, with gaps
+			p := l[g.Intn(len(l))]
+			s = p
+			s.f = p.f + g.Pick(-5, -4, -3, -2, -1, 1, 2, 3, 4, 5, 2, 4)
+			lim := int64(1) << uint(p.v)
+			if s.f >= lim {
+				s.f = lim - 1
+			}
+			if s.f < -lim {
+				s.f = -lim
+			}
+			l = append(l, s)
+			continue
+		}
+		if k >= 11 {
+			k = 0
+		}
 		if sameZoom && (k == 2 || k == 3 || k >= 8) {
 			k = 4 + g.Intn(2)
 		}
@@ -1154,10 +1403,90 @@ func (e *emitter) roundTripCase() {
 	}
 }
 
+func paramFloat(g *Gen) float64 {
+	return []float64{0, 0, 1, -1, 256, -256, 7.5, 1e300, -1e300, math.Inf(1), math.Inf(-1), math.NaN(), math.Copysign(0, -1), 5e-324, g.R.NormFloat64() * 1000}[g.Intn(15)]
+}
+func paramInt(g *Gen) int64 {
+	switch g.Intn(6) {
+	case 0:
+		return g.Pick(0, 1, -1, 31, 32, 35, 36, math.MaxInt64, math.MinInt64)
+	case 1:
+		return g.Int63n(1<<62) - (1 << 61)
+	}
+	return g.Int63n(41) - 3
+}
+
+func (e *emitter) paramsCase() {
+	g := e.g
+	ns := g.Intn(4)
+	slices := w.List{}
+	lens := make([]int, ns)
+	for i := 0; i < ns; i++ {
+		lens[i] = g.Intn(5)
+		sl := w.List{}
+		for j := 0; j < lens[i]; j++ {
+			sl = append(sl, w.L(w.I(g.Int63n(1000)), w.I(g.Int63n(200)-100)))
+		}
+		slices = append(slices, sl)
+	}
+	ref := func() w.Val {
+		if ns == 0 || g.Chance(0.2) {
+			return w.I(-1)
+		}
+		return w.I(int64(g.Intn(ns)))
+	}
+	kinds := [2]int{-1, -1}
+	n := 3 + g.Intn(10)
+	steps := w.List{}
+	tags := []string{Tag("steps=%d", n)}
+	for i := 0; i < n; i++ {
+		t := g.Intn(2)
+		if i == 0 {
+			t = 0
+		}
+		k := kinds[t]
+		c := g.Intn(10)
+		if k < 0 || c == 0 {
+			k = g.Intn(3)
+			kinds[t] = k
+			switch k {
+			case 0:
+				steps = append(steps, w.L(w.I(int64(t)), w.S("NewV"), w.I(paramInt(g)), ref(), w.I(paramInt(g)), w.F(paramFloat(g)), w.F(paramFloat(g))))
+			case 1:
+				steps = append(steps, w.L(w.I(int64(t)), w.S("NewA"), w.I(paramInt(g)), ref(), w.I(paramInt(g)), w.I(paramInt(g)), w.I(paramInt(g))))
+			default:
+				steps = append(steps, w.L(w.I(int64(t)), w.S("NewQ"), w.I(paramInt(g)), w.I(paramInt(g)), w.I(paramInt(g)), w.I(paramInt(g)), w.F(paramFloat(g)), w.F(paramFloat(g))))
+			}
+			continue
+		}
+		zset := [][]string{{"SetQuadkeyZoom", "SetVerticalZoom"}, {"SetQuadkeyZoom", "SetAltitudekeyZoom", "SetZBaseExponent", "SetZBaseOffset"}, {"SetQuadkeyZoom", "SetQuadkey", "SetVZoom", "SetVIndex"}}[k]
+		switch {
+		case c <= 3:
+			steps = append(steps, w.L(w.I(int64(t)), w.S("SetZ"), w.S(zset[g.Intn(len(zset))]), w.I(paramInt(g))))
+		case c <= 5 && k != 1: // heights: often below / above the other one, where a clamp would show
+			steps = append(steps, w.L(w.I(int64(t)), w.S("SetF"), w.S([]string{"SetMaxHeight", "SetMinHeight"}[g.Intn(2)]), w.F(paramFloat(g))))
+		case c <= 6 && k != 2:
+			steps = append(steps, w.L(w.I(int64(t)), w.S("SetInner"), ref()))
+		case c <= 8 && ns > 0:
+			sid := g.Intn(ns)
+			if lens[sid] == 0 {
+				steps = append(steps, w.L(w.I(int64(t)), w.S("SetZ"), w.S(zset[0]), w.I(paramInt(g))))
+			} else {
+				steps = append(steps, w.L(w.I(int64(t)), w.S("CallerWrite"), w.I(int64(sid)), w.I(int64(g.Intn(lens[sid]))), w.I(g.Int63n(1000)+1000), w.I(g.Int63n(100))))
+			}
+		case k != 2:
+			steps = append(steps, w.L(w.I(int64(t)), w.S("GetterWrite"), w.I(int64(g.Intn(4))), w.I(g.Int63n(1000)+2000), w.I(-g.Int63n(100))))
+		default:
+			steps = append(steps, w.L(w.I(int64(t)), w.S("SetZ"), w.S(zset[g.Intn(len(zset))]), w.I(paramInt(g))))
+		}
+	}
+	e.run("Params", tags, false, slices, steps)
+}
+
 func init() {
 	Scale["C11"] = 12000
 	Registry["C11"] = func(r *run.Runner, g *Gen, n int) {
-		r.Register(fnEncode(), fnDecode(), fnRoundTripKey(), fnDedup(), fnQCheck(), fnE2Q(), fnS2Q(), fnE2QA(), fnQ2E(), fnQ2S(), fnRoundTrip())
+		r.Register(fnEncode(), fnDecode(), fnRoundTripKey(), fnDedup(), fnQCheck(), fnE2Q(), fnS2Q(), fnE2QA(), fnQ2E(), fnQ2S(), fnRoundTrip(), fnParams())
 		if n == 0 {
 			return
 		}
@@ -1179,7 +1508,9 @@ func init() {
 		}
 		for i := r.Sum.Evaluations; i < n; i = r.Sum.Evaluations {
 			e.last = nil
-			switch k := g.Intn(20); {
+			switch k := g.Intn(21); {
+			case k == 20:
+				e.paramsCase()
 			case k < 6:
 				e.keyCase()
 			case k < 10:
